@@ -233,3 +233,41 @@ def _axis_kind(o):
     if isinstance(o, ast.BinOp) or isinstance(o, ast.IfExp) or isinstance(o, ast.Attribute) or isinstance(o, ast.Subscript):
         return 'ok' if isinstance(o, (ast.BinOp,)) else 'unknown'
     return 'unknown'
+
+
+RULE_RD1 = ('RD1: in a constructor with a `return_dm` option the density-matrix arm is the projector of the ket arm: it is computed from the '
+            'ket by the outer-product idiom (x[:,None]*x.conj(), np.outer(x, x.conj()), x.reshape(-1,1)*x.conj()).  A density-matrix arm '
+            'that is a multiple of the identity (np.eye(d)/d) is certainly not the projector of a ket for d >= 2.')
+
+
+def rd1(proj, rep, modules=None):
+    rep.rule('RD1', RULE_RD1)
+    n = 0
+    for fi in proj.iter_functions(modules):
+        if 'return_dm' not in fi.all_params:
+            continue
+        m = fi.module
+        rep.touch(m)
+        for node in ast.walk(fi.node):
+            if not (isinstance(node, ast.If) and isinstance(node.test, ast.Name) and node.test.id == 'return_dm'):
+                continue
+            n += 1
+            dm_vals = [s.value for s in node.body if isinstance(s, ast.Assign)]
+            if not dm_vals:
+                rep.undecided('RD1', fi.qual, 'dm arm has no assignment', m, node)
+                continue
+            v = dm_vals[-1]
+            t = ast.unparse(v).replace(' ', '')
+            names = {x.id for x in ast.walk(v) if isinstance(x, ast.Name)}
+            outer = ('.conj()' in t and ('[:,np.newaxis]' in t or '[:,None]' in t or '.reshape(-1,1)' in t)) or 'np.outer(' in t or 'einsum' in t \
+                or ('[:,np.newaxis]*' in t)
+            target = node.body[-1].targets[0].id if isinstance(node.body[-1], ast.Assign) and isinstance(node.body[-1].targets[0], ast.Name) else None
+            if outer and target in names:
+                rep.ok('RD1', fi.qual, f'dm arm `{ast.unparse(v)[:60]}` is the outer product of the ket', m, node)
+            elif t.startswith('np.eye(') or t.startswith('numpy.eye('):
+                rep.violation('RD1', fi.qual, f'with return_dm=True the function returns `{ast.unparse(v)}`, a multiple of the identity (the maximally '
+                              f'mixed state), not the projector of the ket returned with return_dm=False', m, node.body[-1])
+            else:
+                rep.undecided('RD1', fi.qual, f'dm arm `{ast.unparse(v)[:60]}` is not the outer-product idiom', m, node)
+    rep.count('RD1.return_dm_sites', n)
+    return n
